@@ -50,6 +50,8 @@ def generate(seed, tier):
     fields = [{"name": "k", "type": "Choice", "rule": "a,b,c", "width": 1},
               {"name": "n", "type": "Integer", "rule": "0{sep}99", "width": 2},
               {"name": "t", "type": "Text", "width": 3}]
+    if swarm.random() < 0.25:
+        fields.reverse()  # the free-text field comes first
     fields = fields[: swarm.randint(1, 3)]
     names = [field["name"] for field in fields]
     checks = []
@@ -64,7 +66,7 @@ def generate(seed, tier):
             "checks": checks,
             "line_delimiter": swarm.choice(["lf", "cr", "crlf", "any"] + (["none"] if fmt == "fixed" else []))}
     pools = {"k": (["a", "b", "c"], ["x", ""]), "n": (["1", "7", "42"], ["z", "100", "-1"]),
-             "t": (["x", "yz", "abc"] + (["a,b", "a\rb", "a\nb", "\r\n"] if fmt == "delimited" else []), ["abcd", ""])}
+             "t": (["x", "yz", "abc"] + (["a,b", "a\rb", "a\nb", "\r\n", "\ufeffx", "\x00"] if fmt == "delimited" else []), ["abcd", ""])}
     if swarm.random() < 0.25:
         # every field may be empty: a row of empty values only is a row like any other
         for field in fields:
@@ -91,7 +93,7 @@ def generate(seed, tier):
             row = list(rng.choice(rows))
         rows.append(row)
     if spec["header"] and rows:
-        rows[0] = [name[: field["width"]] for name, field in zip(["K", "N", "T"], fields)]
+        rows[0] = [field["name"].upper()[: field["width"]] for field in fields]
     config = simfs.IoConfig.draw(swarm)
     batches = []
     remaining = len(rows)
